@@ -37,6 +37,11 @@ fn main() {
             let n: u64 = args.get(3).and_then(|s| s.parse().ok()).unwrap_or(10);
             conc::run_iter_writers(seed, n, &mut out);
         }
+        "hammer" => {
+            let seed: u64 = args.get(2).and_then(|s| s.parse().ok()).unwrap_or(1);
+            let n: u64 = args.get(3).and_then(|s| s.parse().ok()).unwrap_or(9);
+            conc::run_hammer(seed, n, &mut out);
+        }
         "stall" => {
             let seed: u64 = args.get(2).and_then(|s| s.parse().ok()).unwrap_or(1);
             let n: u64 = args.get(3).and_then(|s| s.parse().ok()).unwrap_or(10);
